@@ -8,7 +8,7 @@ Import ListNotations.
 
 Section GvalInd.
 Variable P : gval -> Prop.
-Hypotheses (HNil : P GNil) (HNilPtr : P GNilPtr)
+Hypotheses (HNil : P GNil) (HIf : forall v, P v -> P (GIface v)) (HNilPtr : P GNilPtr)
   (HSP : forall fs, Forall P fs -> P (GStructPtr fs))
   (HPtr : forall v, P v -> P (GPtr v))
   (HS : forall fs, Forall P fs -> P (GStruct fs))
@@ -24,6 +24,7 @@ Fixpoint gval_ind' (x : gval) : P x :=
     end in
   match x with
   | GNil => HNil
+  | GIface v => HIf v (gval_ind' v)
   | GNilPtr => HNilPtr
   | GStructPtr fs => HSP fs (go fs)
   | GPtr v => HPtr v (gval_ind' v)
@@ -70,6 +71,7 @@ Qed.
 Lemma gval_eqb_eq : forall x y, gval_eqb x y = true <-> x = y.
 Proof.
   induction x using gval_ind'; intros y; destruct y; simpl; try (split; congruence).
+  - rewrite IHx. split; congruence.
   - fold glist_eqb. rewrite glist_eqb_eq by assumption. split; congruence.
   - rewrite IHx. split; congruence.
   - fold glist_eqb. rewrite glist_eqb_eq by assumption. split; congruence.
@@ -91,114 +93,98 @@ Qed.
 (* ---------------------------------------------------------------------------------------------- *)
 (* Map                                                                                             *)
 
-Lemma is_gnil_dec (b : gval) : {b = GNil} + {b <> GNil}.
-Proof. destruct b; (left; reflexivity) || (right; discriminate). Qed.
-
-(* complete description of the struct/slice loop *)
 Lemma map_loop_spec f l :
-  ((forall a, In a l -> f a <> GNil) /\ map_loop f l = (Some (map f l), l)) \/
-  (exists l1 a l2, l = l1 ++ a :: l2 /\ (forall b, In b l1 -> f b <> GNil) /\ f a = GNil /\
-                   map_loop f l = (None, l1 ++ [a])).
+  map_loop f l = (map (fun s => store s (f (unwrap s))) l, map unwrap l).
+Proof. induction l as [|s l IH]; simpl; [reflexivity|]. rewrite IH. reflexivity. Qed.
+
+Lemma map_entries_spec f l :
+  map_entries f l = (map (fun e => (fst e, store (snd e) (f (unwrap (snd e))))) l, map unwrap (map snd l)).
+Proof. induction l as [|[k s] l IH]; simpl; [reflexivity|]. rewrite IH. reflexivity. Qed.
+
+(* storing back what was read leaves a slot as it was, except for the ill-formed "interface holding nil" *)
+Lemma store_unwrap s : store s (unwrap s) = s <-> s <> GIface GNil.
+Proof.
+  destruct s as [|v| |fs|v|fs|n es|n en|k z]; simpl;
+    try (split; [intros _; discriminate|intros _; reflexivity]).
+  destruct v; simpl; (split; [intros _; discriminate|intros _; reflexivity]) || (split; [discriminate|congruence]).
+Qed.
+
+Lemma map_fix {A} (g : A -> A) l : map g l = l <-> forall a, In a l -> g a = a.
 Proof.
   induction l as [|a l IH]; simpl.
-  - left. split; [intros a []|reflexivity].
-  - destruct (is_gnil_dec (f a)) as [E|NE].
-    + right. exists [], a, l. rewrite E. repeat split; auto.
-    + assert (Hstep : map_loop f (a :: l) =
-                      (let (r, log) := map_loop f l in (option_map (cons (f a)) r, a :: log))).
-      { simpl. destruct (f a); try reflexivity. congruence. }
-      simpl in Hstep. rewrite Hstep. clear Hstep.
-      destruct IH as [[Hall Heq]|(l1 & c & l2 & Hl & Hl1 & Hc & Heq)].
-      * left. split.
-        -- intros b [<-|Hb]; auto.
-        -- rewrite Heq. reflexivity.
-      * right. exists (a :: l1), c, l2. rewrite Heq. subst l. repeat split; auto.
-        intros b [<-|Hb]; auto.
+  - split; [intros _ a []|reflexivity].
+  - split.
+    + intros E. injection E as E1 E2. intros b [<-|Hb]; [exact E1|]. apply IH; assumption.
+    + intros H. f_equal; [apply H; auto|apply IH; auto].
 Qed.
 
-Lemma map_loop_some f l r log : map_loop f l = (Some r, log) ->
-  r = map f l /\ log = l /\ forall a, In a l -> f a <> GNil.
+Lemma map_id_slots l : map (fun s => store s (unwrap s)) l = l <-> ~ In (GIface GNil) l.
 Proof.
-  intros H. destruct (map_loop_spec f l) as [[Hall Heq]|(l1 & c & l2 & _ & _ & _ & Heq)];
-    rewrite Heq in H; inversion H; subst; auto.
+  rewrite map_fix. split.
+  - intros H Hin. apply (proj1 (store_unwrap _) (H _ Hin)). reflexivity.
+  - intros H a Ha. apply store_unwrap. intros ->. exact (H Ha).
 Qed.
 
-(* what the map loop produces: the entries whose new value is not the nil interface *)
-Definition keep_entry (f : gval -> gval) (e : N * gval) : list (N * gval) :=
-  match f (snd e) with GNil => [] | b => [(fst e, b)] end.
-
-Lemma map_entries_spec f l : map_entries f l = (flat_map (keep_entry f) l, map snd l).
+Lemma map_id_entries (l : list (N * gval)) :
+  map (fun e => (fst e, store (snd e) (unwrap (snd e)))) l = l <-> ~ In (GIface GNil) (map snd l).
 Proof.
-  induction l as [|[k a] l IH]; simpl; [reflexivity|].
-  rewrite IH. change (keep_entry f (k, a)) with (match f a with GNil => [] | b => [(k, b)] end).
-  destruct (f a); reflexivity.
+  rewrite map_fix. split.
+  - intros H Hin. apply in_map_iff in Hin. destruct Hin as ([k s] & Hs & Hin). simpl in Hs. subst s.
+    specialize (H _ Hin). simpl in H. inversion H.
+  - intros H [k s] Ha. simpl. f_equal. apply store_unwrap. intros ->. apply H.
+    apply in_map_iff. exists (k, GIface GNil). auto.
 Qed.
-
-Lemma flat_map_keep_all f l : (forall a, In a (map snd l) -> f a <> GNil) ->
-  flat_map (keep_entry f) l = map (fun e => (fst e, f (snd e))) l.
-Proof.
-  induction l as [|[k a] l IH]; simpl; intros H; [reflexivity|].
-  rewrite IH by auto. unfold keep_entry. simpl.
-  assert (f a <> GNil) by auto. destruct (f a); try reflexivity. congruence.
-Qed.
-
-Lemma flat_map_keep_id l : flat_map (keep_entry (fun a => a)) l = l <-> ~ In GNil (map snd l).
-Proof.
-  split.
-  - intros H Hin.
-    assert (Hlen : length (flat_map (keep_entry (fun a => a)) l) < length l).
-    { clear H. induction l as [|[k a] l IH]; simpl in *; [contradiction|].
-      assert (Hle : forall l', length (flat_map (keep_entry (fun a : gval => a)) l') <= length l').
-      { induction l' as [|[k' a'] l' IH']; simpl; [lia|].
-        rewrite app_length. unfold keep_entry at 1. simpl. destruct a'; simpl; lia. }
-      rewrite app_length. destruct Hin as [->|Hin].
-      - unfold keep_entry at 1. simpl. specialize (Hle l). lia.
-      - specialize (IH Hin). unfold keep_entry at 1. simpl. destruct a; simpl; lia. }
-    rewrite H in Hlen. lia.
-  - intros H. rewrite flat_map_keep_all.
-    + induction l as [|[k a] l IH]; simpl; [reflexivity|]. f_equal. apply IH.
-      intros Hin. apply H. right. exact Hin.
-    + intros a Ha E. apply H. rewrite <- E. exact Ha.
-Qed.
-
-Lemma map_id_list (l : list gval) : map (fun a => a) l = l.
-Proof. apply map_id. Qed.
 
 (* C18_map_id *)
-Lemma rmap_id_iff x :
-  fst (rmap (fun a => a) x) = MRet x <->
-  (~ In GNil (mchildren x) /\ (forall es, x <> GSlice true es) /\ (forall en, x <> GMap true en)).
+Lemma rmap_id_iff x : fst (rmap (fun a => a) x) = x <-> ~ In (GIface GNil) (mslots x).
 Proof.
-  destruct x as [| |fs|v|fs|n es|n en|k z]; unfold rmap; simpl;
-    try (split; [intros _; repeat split; try (intros []); intros; discriminate | reflexivity]).
-  - (* struct pointer *)
-    destruct (map_loop_spec (fun a => a) fs) as [[Hall Heq]|(l1 & c & l2 & Hl & _ & Hc & Heq)]; rewrite Heq; simpl.
-    + rewrite map_id_list. split; [|reflexivity]. intros _. repeat split; try (intros; discriminate).
-      intros Hin. exact (Hall _ Hin eq_refl).
-    + split; [discriminate|]. intros [Hn _]. exfalso. apply Hn. subst. apply in_or_app. right. left. reflexivity.
-  - (* slice *)
-    destruct (map_loop_spec (fun a => a) es) as [[Hall Heq]|(l1 & c & l2 & Hl & _ & Hc & Heq)]; rewrite Heq; simpl.
-    + rewrite map_id_list. split.
-      * intros E. inversion E. subst n. repeat split; try (intros; discriminate).
-        intros Hin. exact (Hall _ Hin eq_refl).
-      * intros (_ & Hs & _). destruct n; [exfalso; exact (Hs es eq_refl)|reflexivity].
-    + split; [discriminate|]. intros [Hn _]. exfalso. apply Hn. subst. apply in_or_app. right. left. reflexivity.
-  - (* map *)
-    rewrite map_entries_spec. simpl. split.
-    + intros E. inversion E as [[Hn Hl]]. rewrite Hl. subst n. repeat split; try (intros; discriminate).
-      apply flat_map_keep_id. exact Hl.
-    + intros (Hin & _ & Hm). destruct n; [exfalso; exact (Hm en eq_refl)|].
-      apply flat_map_keep_id in Hin. rewrite Hin. reflexivity.
+  destruct x as [|v| |fs|v|fs|n es|n en|k z]; unfold rmap; simpl;
+    try (split; [intros _ []|reflexivity]).
+  - rewrite map_loop_spec. simpl. rewrite <- map_id_slots. split; congruence.
+  - destruct n; simpl; [split; [intros _ []|reflexivity]|].
+    rewrite map_loop_spec. simpl. rewrite <- map_id_slots. split; congruence.
+  - destruct n; simpl; [split; [intros _ []|reflexivity]|].
+    rewrite map_entries_spec. simpl. rewrite <- map_id_entries. split; congruence.
 Qed.
 
-(* nil stays nil, and nothing is called *)
-Lemma rmap_nil f x : is_nil x = true -> rmap f x = (MRet x, []).
-Proof. intros H. unfold rmap. rewrite H. reflexivity. Qed.
+Lemma forallb_In {A} (p : A -> bool) l a : forallb p l = true -> In a l -> p a = true.
+Proof. intros H. rewrite forallb_forall in H. apply H. Qed.
+
+Lemma wf_slot_not_iface_nil l : forallb wf_slot l = true -> ~ In (GIface GNil) l.
+Proof. intros H Hin. apply (forallb_In _ _ _ H) in Hin. discriminate. Qed.
+
+Lemma wfb_mslots x : wfb x = true -> ~ In (GIface GNil) (mslots x).
+Proof.
+  destruct x as [|v| |fs|v|fs|n es|n en|k z]; simpl; try (intros _ []).
+  - apply wf_slot_not_iface_nil.
+  - destruct n; [intros _ []|]. simpl. apply wf_slot_not_iface_nil.
+  - destruct n; [intros _ []|]. simpl. rewrite andb_true_iff. intros [_ H] Hin.
+    apply in_map_iff in Hin. destruct Hin as (e & He & Hin).
+    apply (forallb_In _ _ _ H) in Hin. rewrite He in Hin. discriminate.
+Qed.
+
+Lemma rmap_id_wf x : wfb x = true -> rmap (fun a => a) x = (x, mchildren x).
+Proof.
+  intros H. pose proof (proj2 (rmap_id_iff x) (wfb_mslots x H)) as E.
+  rewrite <- E at 2. clear E H.
+  destruct x as [|v| |fs|v|fs|n es|n en|k z]; unfold rmap, mchildren; simpl; try reflexivity.
+  - rewrite map_loop_spec. reflexivity.
+  - destruct n; [reflexivity|]. rewrite map_loop_spec. reflexivity.
+  - destruct n; [reflexivity|]. rewrite map_entries_spec. reflexivity.
+Qed.
+
+(* nil stays nil, and nothing is called: nil interface, nil pointers, nil slices, nil maps *)
+Lemma rmap_nil f x : is_nil x = true \/ container_nil x = true -> rmap f x = (x, []).
+Proof.
+  intros [H|H]; unfold rmap.
+  - rewrite H. reflexivity.
+  - destruct x; try discriminate; simpl in H; subst; reflexivity.
+Qed.
 
 (* values that are not pointers to structs, slices or maps come back unchanged, nothing is called *)
 Lemma rmap_other f x :
   (forall fs, x <> GStructPtr fs) -> (forall n es, x <> GSlice n es) -> (forall n en, x <> GMap n en) ->
-  rmap f x = (MRet x, []).
+  rmap f x = (x, []).
 Proof.
   intros H1 H2 H3. destruct x; try reflexivity.
   - exfalso. exact (H1 _ eq_refl).
@@ -207,56 +193,71 @@ Proof.
 Qed.
 
 (* C18_map_calls *)
-Lemma rmap_calls f x :
-  (fst (rmap f x) <> MPanic -> snd (rmap f x) = mchildren x) /\
-  (fst (rmap f x) = MPanic ->
-     exists l1 a l2, mchildren x = l1 ++ a :: l2 /\ (forall b, In b l1 -> f b <> GNil) /\ f a = GNil /\
-                     snd (rmap f x) = l1 ++ [a]).
+Lemma rmap_calls f x : snd (rmap f x) = mchildren x.
 Proof.
-  destruct x as [| |fs|v|fs|n es|n en|k z]; unfold rmap; simpl; try (split; [reflexivity|discriminate]).
-  - destruct (map_loop_spec f fs) as [[Hall Heq]|(l1 & c & l2 & Hl & Hl1 & Hc & Heq)]; rewrite Heq; simpl.
-    + split; [reflexivity|discriminate].
-    + split; [congruence|]. intros _. exists l1, c, l2. auto.
-  - destruct (map_loop_spec f es) as [[Hall Heq]|(l1 & c & l2 & Hl & Hl1 & Hc & Heq)]; rewrite Heq; simpl.
-    + split; [reflexivity|discriminate].
-    + split; [congruence|]. intros _. exists l1, c, l2. auto.
-  - rewrite map_entries_spec. simpl. split; [reflexivity|discriminate].
+  destruct x as [|v| |fs|v|fs|n es|n en|k z]; unfold rmap, mchildren; simpl; try reflexivity.
+  - rewrite map_loop_spec. reflexivity.
+  - destruct n; [reflexivity|]. rewrite map_loop_spec. reflexivity.
+  - destruct n; [reflexivity|]. rewrite map_entries_spec. reflexivity.
 Qed.
 
 (* Map over a map does not depend on the iteration order, up to permutation *)
-Lemma rmap_map_perm f n en en' : Permutation en en' ->
-  Permutation (snd (rmap f (GMap n en))) (snd (rmap f (GMap n en'))) /\
-  exists m m', fst (rmap f (GMap n en)) = MRet (GMap false m) /\
-               fst (rmap f (GMap n en')) = MRet (GMap false m') /\ Permutation m m'.
+Lemma rmap_map_perm f en en' : Permutation en en' ->
+  Permutation (snd (rmap f (GMap false en))) (snd (rmap f (GMap false en'))) /\
+  exists m m', fst (rmap f (GMap false en)) = GMap false m /\
+               fst (rmap f (GMap false en')) = GMap false m' /\ Permutation m m'.
 Proof.
   intros HP. unfold rmap. simpl. rewrite !map_entries_spec. simpl. split.
-  - apply Permutation_map. exact HP.
+  - apply Permutation_map. apply Permutation_map. exact HP.
   - eexists. eexists. split; [reflexivity|]. split; [reflexivity|].
-    apply Permutation_flat_map. exact HP.
+    apply Permutation_map. exact HP.
+Qed.
+
+(* a value returned by the function is an [any]: never a GIface; [plain] also excludes the untyped nil *)
+Definition plain (b : gval) : Prop := b <> GNil /\ forall v, b <> GIface v.
+
+Lemma unwrap_store s b : plain b -> unwrap (store s b) = b.
+Proof.
+  intros [H H']. destruct b; try congruence; try (destruct s; reflexivity);
+    exfalso; exact (H' _ eq_refl).
+Qed.
+
+Lemma map_unwrap_store f l : (forall a, In a (map unwrap l) -> plain (f a)) ->
+  map unwrap (map (fun s => store s (f (unwrap s))) l) = map f (map unwrap l).
+Proof.
+  induction l as [|s l IH]; simpl; intros H; [reflexivity|].
+  rewrite IH by auto. rewrite unwrap_store by auto. reflexivity.
 Qed.
 
 (* C18_map_shape *)
-Lemma rmap_shape f x v : fst (rmap f x) = MRet v ->
-  kind_of v = kind_of x /\ elem_kind v = elem_kind x /\
-  (kind_of x <> KMap \/ (forall a, In a (mchildren x) -> f a <> GNil) ->
-     mchildren v = map f (mchildren x) /\ mkeys v = mkeys x) /\
-  (forall n es, v <> GSlice true es /\ v <> GMap true n \/ v = x).
+Lemma rmap_shape f x :
+  let v := fst (rmap f x) in
+  kind_of v = kind_of x /\ elem_kind v = elem_kind x /\ container_nil v = container_nil x /\
+  mkeys v = mkeys x /\
+  mslots v = map (fun s => store s (f (unwrap s))) (mslots x) /\
+  ((forall a, In a (mchildren x) -> plain (f a)) -> mchildren v = map f (mchildren x)).
 Proof.
-  destruct x as [| |fs|w|fs|n es|n en|k z]; unfold rmap; simpl;
-    try (intros E; inversion E; subst; repeat split; auto; intros; right; reflexivity).
-  - destruct (map_loop f fs) as [[r|] log] eqn:E; simpl; [|discriminate].
-    intros E'. inversion E'. subst v. apply map_loop_some in E. destruct E as (-> & _ & _).
-    simpl. repeat split; auto. intros. left. split; discriminate.
-  - destruct (map_loop f es) as [[r|] log] eqn:E; simpl; [|discriminate].
-    intros E'. inversion E'. subst v. apply map_loop_some in E. destruct E as (-> & _ & _).
-    simpl. repeat split; auto. intros. left. split; discriminate.
-  - rewrite map_entries_spec. simpl. intros E. inversion E. subst v. simpl.
-    repeat split; auto.
-    + destruct H as [H|H]; [congruence|]. rewrite flat_map_keep_all by exact H.
-      rewrite !map_map. reflexivity.
-    + destruct H as [H|H]; [congruence|]. rewrite flat_map_keep_all by exact H.
-      rewrite !map_map. reflexivity.
-    + intros. left. split; discriminate.
+  destruct x as [|w| |fs|w|fs|n es|n en|k z]; unfold rmap, mchildren; simpl;
+    try (repeat split; reflexivity).
+  - rewrite map_loop_spec. simpl. repeat split; auto. apply map_unwrap_store.
+  - destruct n; simpl; [repeat split; reflexivity|].
+    rewrite map_loop_spec. simpl. repeat split; auto. apply map_unwrap_store.
+  - destruct n; simpl; [repeat split; reflexivity|].
+    rewrite map_entries_spec. simpl. rewrite !map_map. simpl. repeat split; auto.
+    intros H. rewrite <- (map_map snd unwrap) in H. pose proof (map_unwrap_store f (map snd en) H) as E.
+    rewrite !map_map in E. exact E.
+Qed.
+
+(* the stored value: an untyped nil result becomes the zero value of the slot's type, anything else is what the
+   function returned (as seen through Interface()) *)
+Lemma store_spec s b :
+  (b = GNil -> store s b = zero_of s) /\ (plain b -> unwrap (store s b) = b) /\
+  zero_of (zero_of s) = zero_of s.
+Proof.
+  split; [intros ->; reflexivity|]. split; [apply unwrap_store|].
+  induction s using gval_ind'; simpl; try reflexivity.
+  f_equal. rewrite map_map. apply map_ext_in. intros a Ha.
+  rewrite Forall_forall in H. apply H. exact Ha.
 Qed.
 
 (* ---------------------------------------------------------------------------------------------- *)
@@ -264,23 +265,27 @@ Qed.
 
 Lemma any_loop_spec p l :
   (fst (any_loop p l) = true /\
-     exists l1 e l2, l = l1 ++ e :: l2 /\ (forall a, In a l1 -> p a = false) /\ p e = true /\
+     exists l1 e l2, map unwrap l = l1 ++ e :: l2 /\ (forall a, In a l1 -> p a = false) /\ p e = true /\
                      snd (any_loop p l) = l1 ++ [e]) \/
-  (fst (any_loop p l) = false /\ (forall a, In a l -> p a = false) /\ snd (any_loop p l) = l).
+  (fst (any_loop p l) = false /\ (forall a, In a (map unwrap l) -> p a = false) /\ snd (any_loop p l) = map unwrap l).
 Proof.
-  induction l as [|a l IH]; simpl.
+  induction l as [|s l IH]; simpl.
   - right. repeat split; auto. intros a [].
-  - destruct (p a) eqn:E; simpl.
-    + left. split; [reflexivity|]. exists [], a, l. repeat split; auto. intros b [].
+  - destruct (p (unwrap s)) eqn:E; simpl.
+    + left. split; [reflexivity|]. exists [], (unwrap s), (map unwrap l). repeat split; auto. intros b [].
     + destruct (any_loop p l) as [r log]. simpl in *.
       destruct IH as [[Hr (l1 & e & l2 & Hl & Hl1 & He & Hlog)]|(Hr & Hall & Hlog)].
-      * left. split; [exact Hr|]. exists (a :: l1), e, l2. subst. repeat split; auto.
+      * left. split; [exact Hr|]. exists (unwrap s :: l1), e, l2. subst. rewrite Hl. repeat split; auto.
         intros b [<-|Hb]; auto.
       * right. subst. repeat split; auto. intros b [<-|Hb]; auto.
 Qed.
 
-Lemma rany_children p x : rany p x = any_loop p (children x).
-Proof. destruct x; reflexivity. Qed.
+Lemma rany_children p x : exists l, children x = map unwrap l /\ rany p x = any_loop p l.
+Proof.
+  destruct x as [|v| |fs|v|fs|n es|n en|k z]; try (exists []; split; reflexivity).
+  - exists fs. split; reflexivity.
+  - exists es. split; reflexivity.
+Qed.
 
 (* C18_any_iff *)
 Lemma rany_iff p x :
@@ -290,8 +295,8 @@ Lemma rany_iff p x :
                      snd (rany p x) = l1 ++ [e]) /\
   (fst (rany p x) = false -> snd (rany p x) = children x).
 Proof.
-  rewrite rany_children.
-  destruct (any_loop_spec p (children x)) as [[Hr (l1 & e & l2 & Hl & Hl1 & He & Hlog)]|(Hr & Hall & Hlog)].
+  destruct (rany_children p x) as (l & -> & ->).
+  destruct (any_loop_spec p l) as [[Hr (l1 & e & l2 & Hl & Hl1 & He & Hlog)]|(Hr & Hall & Hlog)].
   - split; [|split].
     + split; [|intros _; exact Hr]. intros _. exists e. split; [|exact He].
       rewrite Hl. apply in_or_app. right. left. reflexivity.
@@ -315,7 +320,7 @@ Variable f : gval -> gval -> B -> B.
 Definition zstep (b : B) (p : gval * gval) : B := f (fst p) (snd p) b.
 
 Lemma zip_loop_spec : forall xs ys b, length xs = length ys ->
-  let ps := combine xs ys in
+  let ps := combine (map unwrap xs) (map unwrap ys) in
   ((forall n, 1 <= n <= length ps -> fold_left zstep (firstn n ps) b <> zero) /\
      zip_loop zero eqb_zero f xs ys b = (fold_left zstep ps b, ps)) \/
   (exists n, 1 <= n <= length ps /\ fold_left zstep (firstn n ps) b = zero /\
@@ -325,11 +330,11 @@ Proof.
   induction xs as [|x xs IH]; intros [|y ys] b Hlen; simpl in Hlen; try discriminate.
   - left. simpl. split; [intros n Hn; lia|reflexivity].
   - injection Hlen as Hlen. simpl.
-    destruct (eqb_zero (f x y b)) eqn:E.
+    destruct (eqb_zero (f (unwrap x) (unwrap y) b)) eqn:E.
     + right. apply eqb_zero_spec in E. exists 1. simpl. repeat split; auto; try lia.
-    + assert (NE : f x y b <> zero).
+    + assert (NE : f (unwrap x) (unwrap y) b <> zero).
       { intros H. apply eqb_zero_spec in H. congruence. }
-      destruct (IH ys (f x y b) Hlen) as [[Hall Heq]|(n & Hn & Hz & Hmin & Heq)].
+      destruct (IH ys (f (unwrap x) (unwrap y) b) Hlen) as [[Hall Heq]|(n & Hn & Hz & Hmin & Heq)].
       * left. rewrite Heq. split; [|reflexivity].
         intros n Hn. destruct n as [|n]; [lia|]. simpl. destruct n as [|n]; [exact NE|].
         apply Hall. lia.
@@ -339,14 +344,15 @@ Proof.
 Qed.
 
 Lemma zipreduce_zip_children init x y xs ys : zip_children x y = Some (xs, ys) ->
-  length xs = length ys /\ zipreduce zero eqb_zero f init x y = zip_loop zero eqb_zero f xs ys init.
+  exists sx sy, xs = map unwrap sx /\ ys = map unwrap sy /\ length sx = length sy /\
+                zipreduce zero eqb_zero f init x y = zip_loop zero eqb_zero f sx sy init.
 Proof.
-  destruct x as [| |fx|v|fx|nx ex|nx ex|k z]; destruct y as [| |fy|w|fy|ny ey|ny ey|k' z']; simpl; try discriminate.
+  destruct x as [|v| |fx|v|fx|nx ex|nx ex|k z]; destruct y as [|w| |fy|w|fy|ny ey|ny ey|k' z']; simpl; try discriminate.
   - destruct (Nat.eqb (length fx) (length fy)) eqn:E; [|discriminate].
-    intros H. inversion H; subst. split; [apply Nat.eqb_eq; exact E|].
+    intros H. inversion H; subst. exists fx, fy. repeat split; [apply Nat.eqb_eq; exact E|].
     unfold zipreduce. simpl. rewrite E. reflexivity.
   - destruct (Nat.eqb (length ex) (length ey)) eqn:E; [|discriminate].
-    intros H. inversion H; subst. split; [apply Nat.eqb_eq; exact E|].
+    intros H. inversion H; subst. exists ex, ey. repeat split; [apply Nat.eqb_eq; exact E|].
     unfold zipreduce. simpl. rewrite E. reflexivity.
 Qed.
 
@@ -359,7 +365,8 @@ Lemma zipreduce_fold init x y xs ys : zip_children x y = Some (xs, ys) ->
              (forall m, 1 <= m < n -> fold_left zstep (firstn m ps) init <> zero) /\
              zipreduce zero eqb_zero f init x y = (zero, firstn n ps)).
 Proof.
-  intros H. apply zipreduce_zip_children with (init := init) in H. destruct H as [Hlen ->].
+  intros H. apply zipreduce_zip_children with (init := init) in H.
+  destruct H as (sx & sy & -> & -> & Hlen & ->).
   apply zip_loop_spec. exact Hlen.
 Qed.
 
@@ -380,8 +387,8 @@ Lemma zipreduce_mismatch init x y : is_nil x = false -> is_nil y = false ->
   zipreduce zero eqb_zero f init x y = (zero, []).
 Proof.
   intros Hx Hy HS HL.
-  destruct x as [| |fx|v|fx|nx ex|nx ex|k z]; try discriminate;
-  destruct y as [| |fy|w|fy|ny ey|ny ey|k' z']; try discriminate; try reflexivity;
+  destruct x as [|v| |fx|v|fx|nx ex|nx ex|k z]; try discriminate;
+  destruct y as [|w| |fy|w|fy|ny ey|ny ey|k' z']; try discriminate; try reflexivity;
   unfold zipreduce; simpl;
   try (specialize (HS _ _ eq_refl eq_refl); apply Nat.eqb_neq in HS; rewrite HS; reflexivity);
   try (specialize (HL _ _ _ _ eq_refl eq_refl); apply Nat.eqb_neq in HL; rewrite HL; reflexivity);
@@ -396,7 +403,7 @@ Lemma zip_children_none x y : zip_children x y = None <->
   (forall fx fy, x = GStructPtr fx -> y = GStructPtr fy -> length fx <> length fy) /\
   (forall nx ex ny ey, x = GSlice nx ex -> y = GSlice ny ey -> length ex <> length ey).
 Proof.
-  destruct x as [| |fx|v|fx|nx ex|nx ex|k z]; destruct y as [| |fy|w|fy|ny ey|ny ey|k' z']; simpl;
+  destruct x as [|v| |fx|v|fx|nx ex|nx ex|k z]; destruct y as [|w| |fy|w|fy|ny ey|ny ey|k' z']; simpl;
     try (split; [intros _; split; intros; discriminate|reflexivity]).
   - destruct (Nat.eqb (length fx) (length fy)) eqn:E.
     + apply Nat.eqb_eq in E. split; [discriminate|]. intros [H _]. exfalso. exact (H _ _ eq_refl eq_refl E).
